@@ -1,5 +1,6 @@
 import LtVerif.Model.H1Parse
 import LtVerif.Model.H1Chunked
+import LtVerif.Model.H1Conn
 namespace Driver
 open LtVerif LtVerif.B
 
@@ -20,7 +21,80 @@ def reqOutStr : ReqOut → String
     " q=" ++ toHex t.query ++ " h=" ++ (match r.host with | some h => toHex h | none => "none") ++
     " len=" ++ toString r.bodyLen ++ " hdrs=" ++ hdrsCanon r.headers
 
+/-! ### connection automaton (`conn` op) -/
+
+/-- request handler of the end-to-end set-up of tools/ltv/props/c01.py: `/echo.pl` (with optional
+    path-info) is an echoing CGI, CONNECT is refused with 405 + close, everything else is answered
+    without reading the body (status decided by the check module's own table: printed as 0) -/
+def isCgiPath (p : Bytes) : Bool :=
+  let pre := ofString "/echo.pl"
+  p.take pre.length = pre && (p.length = pre.length || p.getD pre.length 0 = slash)
+
+def connHandler (r : PReq) (t : Target) : Handler :=
+  if r.method = ofString "CONNECT" then { status := 405, close := true }
+  else if isCgiPath t.path then { status := 200, readsBody := true }
+  else { status := 0 }
+
+def evStr (idx : Nat) (alt : Option Nat) (inCk : Bool) : Event → String
+  | .request st m _ path body ck =>
+    "req:" ++ toString st ++ ":" ++ toHex m ++ ":" ++ toHex path ++ ":" ++ (if ck then "ck" else "cl") ++ ":" ++
+      toHex body ++ "@" ++ toString idx
+  | .reject st =>
+    "rej:" ++ toString st ++ (match alt with | some a => ":alt" ++ toString a | none => "") ++
+      (if inCk then ":ck" else "") ++ "@" ++ toString idx
+  | .close => "close@" ++ toString idx
+  | .unmodelled => "skip@" ++ toString idx
+
+/-- the complete head starting with `pre` in `pre ++ rest` (for the alternative status of a head
+    that begins with a control byte) -/
+def completeHead : Bytes → Bytes → Option Bytes
+  | rpre, [] => if headEnd rpre then some rpre.reverse else none
+  | rpre, b :: rest => if headEnd rpre then some rpre.reverse else completeHead (b :: rpre) rest
+
+def phaseStr : Phase → String
+  | .head rbuf _ bo => if rbuf.isEmpty then "idle" else if bo then "blank" else "head"
+  | .bodyCL .. => "body-cl"
+  | .bodyCk .. => "body-ck"
+  | .closed => "closed"
+
+def connGo (cfg : ConnCfg) : ConnSt → Nat → Bytes → List String → ConnSt × List String
+  | s, _, [], acc => (s, acc.reverse)
+  | s, i, b :: rest, acc =>
+    let r := h1Step cfg s b
+    -- rejected by the "first byte < 32" rule of h1_recv_headers: what the parser would say if the
+    -- whole head were already buffered
+    let alt : Option Nat :=
+      match s.phase, r.2 with
+      | .head rbuf _ bo, .reject 400 :: _ =>
+        let start : Option Bytes :=
+          if rbuf.isEmpty then some [b]
+          else if bo && rbuf = [13] then some [b, 13]
+          else if bo && b ≠ cr && b ≠ lf then some [b]
+          else none
+        match start with
+        | some rpre =>
+          if (rpre.getLast?.getD 32) < 32 then
+            match completeHead rpre rest with
+            | some blk =>
+              match parseHead cfg.opts cfg.maxField cfg.port blk with
+              | .err e => some e
+              | _ => some 400
+            | none => some 400
+          else none
+        | none => none
+      | _, _ => none
+    let inCk : Bool := match s.phase with | .bodyCk .. => true | _ => false
+    connGo cfg r.1 (i + 1) rest ((r.2.map (evStr i alt inCk)).reverse ++ acc)
+
 def h1Line : List String → String
+  | ["conn", fl, mf, mk, ki, ms, h] =>
+    match fl.toNat?, mf.toNat?, mk.toNat?, ki.toNat?, ms.toNat?, ofHex h with
+    | some f, some m, some k, some idle, some msz, some bs =>
+      let cfg : ConnCfg := { opts := ⟨f⟩, maxField := m, maxKaReqs := k, kaIdle := idle,
+                             maxSize := msz * 1024, handler := connHandler }
+      let (s, evs) := connGo cfg {} 0 bs []
+      String.intercalate " " (evs ++ ["end:" ++ phaseStr s.phase ++ ":" ++ toString s.count])
+    | _, _, _, _, _, _ => "bad-op"
   | ["req", fl, mf, h] =>
     match fl.toNat?, mf.toNat?, ofHex h with
     | some f, some m, some b => reqOutStr (parseHead ⟨f⟩ m 80 b)
